@@ -210,6 +210,28 @@ def guard_rules(repo, res, rule="GUARD"):
                 tail_head = c[0] == "tuple" and "expr_get_tail" in A.show(c[1][0]) and "expr_get_head" in A.show(c[1][1])
                 ok = vs == ["Sequence"] and guard_ok and win and both_term and tail_head
                 why = f"Sequence arm under within_subword={guard_ok}; children.windows(2)={win}; (tail(left), head(right)) both Terminal={both_term and tail_head}"
+        if not ok:
+            # written another way (helper, find_map, zip): locate the check by what it does
+            core = RPL.subword_spaces_core(repo)
+            if core.get("ok"):
+                # and it still runs only inside a word: the core is reached only under the flag (arm guard / early return / `if flag`)
+                cf = repo.fn(core["core"])
+                under = False
+                for hf in {f5, repo.fn(core["raiser"])} - {None}:
+                    hpm = A.parent_map(hf.body)
+                    henv = A.collect_envs(hf)
+                    anchors = list(P.ctor_sites(hf.body, "Error::SubwordSpaces")) + (list(P.find_calls(hf.body, names={cf.name})) if cf is not hf else [])
+                    for s_ in anchors:
+                        for g, role in A.guards_of(s_, hpm):
+                            if g["k"] == "Arm" and g.get("guard") is not None and A.resolve(g["guard"], henv.get(id(g["body"])) or A.fn_env(hf))[0] == "param":
+                                under = True
+                            if g["k"] == "If" and role == "then" and A.resolve(g["cond"], henv.get(id(g)) or A.fn_env(hf))[0] == "param":
+                                under = True
+                        for kind_, cnd, st in A.preceding_guards(s_, hpm):
+                            if kind_ == "if" and cnd["k"] == "Unary" and cnd.get("op") == "!" and A.resolve(cnd["expr"], henv.get(id(cnd)) or A.fn_env(hf))[0] == "param":
+                                under = True
+                ok = under
+                why = core["why"] + f"; only within a word={under}"
         res.check(ok, rule, f"{rule}:{fq5}:SubwordSpaces", why, f5.loc())
         # Subword arm switches the flag on; NontermRef arm follows the definition with the flag unchanged
         arm, m = RPL.arm_for(repo, f5, "Expr", "Subword")
